@@ -231,6 +231,97 @@ def sec_region(rec, b=2, patches=None):
         rec.fact(f"{tag}/path{i}/same-order", rb.order == ro.order == order, key="C15/binning/order", detail={})
 
 
+def _replay_region_batch(b, compute=False):
+    def run(cex):
+        with load.real_modules():
+            return _run(cex)
+
+    def _run(cex):
+        from acryo import BatchLoader, Molecules
+
+        scale = fl(cex.get("scale", 1.0)) or 1.0
+        S = (3, 2, 4)
+        rng = np.random.default_rng(3)
+        worst = 0.0
+        bl = BatchLoader(order=1, scale=scale, output_shape=tuple(b * s for s in S))
+        poss = []
+        for k in range(2):
+            img = rng.normal(size=(12 * b + 3, 12 * b + 1, 12 * b + 5))
+            cb = np.array([5.0, 5.5, 4.5]) + k
+            pos = (cb * b + (b - 1) / 2) * scale
+            if compute:
+                import dask.array as da
+
+                img = da.from_array(img, chunks=(16, 16, 16))
+            bl.add_tomogram(img, Molecules([pos]), image_id=k)
+        big = bl.construct_dask().compute()
+        try:
+            binned = bl.binning(b, compute=compute).replace(output_shape=S)
+            small = binned.construct_dask().compute()
+        except Exception as e:
+            return True, {"raised": repr(e)[:200], "b": b, "compute": compute, "images": "dask arrays"}
+        for k in range(2):
+            ref = big[k].reshape(S[0], b, S[1], b, S[2], b).sum(axis=(1, 3, 5))
+            worst = max(worst, float(np.abs(small[k] - ref).max()))
+        return worst > 1e-4 * b ** 3, {"max_abs_err": worst, "b": b, "scale": scale, "loader": "BatchLoader"}
+
+    return run
+
+
+def sec_region_batch(rec, b=3, compute=False, patches=None):
+    """BatchLoader.binning keeps the sampled physical region (same identity as for the single loader)"""
+    from . import c03
+
+    L = c03._load(patches)
+    BT, MC = L["acryo.loader._batch"], L["acryo.molecules.core"]
+    xp = L.xp
+    rec.encodes("acryo/loader/_batch.py:BatchLoader.binning", "acryo/loader/_batch.py:BatchLoader.replace", "acryo/_utils.py:bin_image")
+    tags = ["m0", "m1"]
+    scale = real("scale")
+    n = [integer(f"n{i}") for i in range(3)]
+    S = (3, 2, 4)
+    hyps = [scale.e > 0] + [x.e >= 4000 for x in n]
+    P = {t: [real(f"{t}_p{a}") for a in range(3)] for t in tags}
+    for t in tags:
+        for a in range(3):
+            c = P[t][a].e / scale.e
+            hyps += [c >= 1000, c <= _real(n[a].e) - 1000]
+    rp = _replay_region_batch(b, compute)
+    tag = f"region-batch[b={b},compute={compute}]"
+    with L.installed():
+        def run():
+            bl = BT.BatchLoader(order=1, scale=scale, output_shape=tuple(b * s for s in S))
+            for k, t in enumerate(tags):
+                bl.add_tomogram(stubs.ImgStub(n, root=f"tomo{k}"), c03._molecules(MC, [t]), image_id=k)
+            binned = bl.binning(b, compute=compute).replace(output_shape=S)
+            ro = [t.compute() for t in bl.construct_loading_tasks(backend=xp)]
+            rb = [t.compute() for t in binned.construct_loading_tasks(backend=xp)]
+            return bl, binned, ro, rb
+
+        k = [z3.Real(f"k{i}") for i in range(3)]
+        for pi, p in enumerate(explore(run, assumptions=hyps, max_paths=100)):
+            if not p.ok:
+                ok, det = rp({})
+                rec.fact(f"{tag}/path{pi}/runs", False, key="C15/batch-binning/raises", detail={"exc": repr(p.exc)[:300], **det}, reproduced=ok)
+                continue
+            bl, binned, ro, rb = p.result
+            h = hyps + [p.condition()]
+            rec.query(f"{tag}/path{pi}/scale", h, _real(zi(binned.scale)) == scale.e * b, key="C15/batch-binning/scale", names={"scale"}, replay=rp)
+            rec.fact(f"{tag}/path{pi}/two-tasks-each", len(ro) == 2 and len(rb) == 2, key="C15/batch-binning/count", detail={})
+            for m in range(min(len(ro), len(rb), 2)):
+                if b > 1:
+                    root = rb[m].src.root
+                    okimg = isinstance(root, tuple) and root[0] == "binned" and root[1].root == f"tomo{m}" and tuple(root[2]) == (b, b, b)
+                    rec.fact(f"{tag}/path{pi}/mol{m}/binned-image-of-its-tomogram", bool(okimg), key="C15/batch-binning/image", detail={"root": repr(root)})
+                for a in range(3):
+                    a_bin = zsum_row(rb[m].matrix, a, k) + _real(zi(rb[m].src.origin[a]))
+                    kk = [b * k[j] + Fraction(b - 1, 2) for j in range(3)]
+                    a_orig = zsum_row(ro[m].matrix, a, kk) + _real(zi(ro[m].src.origin[a]))
+                    rec.query(f"{tag}/path{pi}/mol{m}/same-region-axis{a}", h, b * a_bin + Fraction(b - 1, 2) == a_orig, key="C15/batch-binning/same-region",
+                              names={"scale"}, replay=rp)
+            rec.fact(f"{tag}/path{pi}/original-untouched", all(img.root == f"tomo{kk_}" for kk_, img in bl.images.items()), key="C15/batch-binning/mutates-original", detail={})
+
+
 def sec_conformance(rec):
     """ImgStub.reshape/sum block contract vs numpy"""
     rng = np.random.default_rng(0)
@@ -300,6 +391,9 @@ def sections(tier):
     S.append(("outshape", "checks.c15", "sec_outshape", {}))
     for b in range(1, 7):
         S.append((f"region-b{b}", "checks.c15", "sec_region", {"b": b}))
+        S.append((f"region-batch-b{b}", "checks.c15", "sec_region_batch", {"b": b}))
+        if b in (2, 3):
+            S.append((f"region-batch-b{b}-compute", "checks.c15", "sec_region_batch", {"b": b, "compute": True}))
     return S
 
 
@@ -314,6 +408,8 @@ MUTANTS = [
     ("binning:offset-no-scale", "checks.c15", "sec_region", {"b": 2}, {_LD: [("tr = -(binsize - 1) / 2 * self.scale", "tr = -(binsize - 1) / 2")]}),
     ("binning:scale-not-updated", "checks.c15", "sec_region", {"b": 2}, {_LD: [("            scale=self.scale * binsize,\n        )\n\n        out._image = binned_image", "            scale=self.scale,\n        )\n\n        out._image = binned_image")]}),
     ("binning:image-not-replaced", "checks.c15", "sec_region", {"b": 2}, {_LD: [("        out._image = binned_image\n", "        pass\n")]}),
+    ("batch-binning:odd-b-offset", "checks.c15", "sec_region_batch", {"b": 3}, {"acryo.loader._batch": [("        tr = -(binsize - 1) / 2 * self.scale", "        tr = -(binsize // 2 - 0.5) * self.scale")]}),
+    ("batch-binning:images-not-replaced", "checks.c15", "sec_region_batch", {"b": 2}, {"acryo.loader._batch": [("        out._images = _images\n", "        pass\n")]}),
     ("binning:floor-offset", "checks.c15", "sec_region", {"b": 4}, {_LD: [("tr = -(binsize - 1) / 2 * self.scale", "tr = -((binsize - 1) // 2) * self.scale")]}),
 ]
 
@@ -332,7 +428,7 @@ def run(tier, procs=None, only=None):
                 "same region": "b in 1..6; position, scale > 0, rotation matrix (9 free reals), box sides 1..8 symbolic; molecule >= 1000 px inside the tomogram (boundary handling is C02)",
                 "order": 1},
         trusted_base=TRUSTED + ["C02's NdiStub contract", "numpy reshape/sum on object arrays (real numpy)"],
-        outside=["BatchLoader.binning (needs the polars-backed molecule table; covered by C03's machinery when available)", "dask compute flag (lazy vs eager images are the same stub)"],
+        outside=["dask compute flag (lazy vs eager images are the same stub)"],
         mutants=MUTANTS if (not quick(tier) and not only) else None,
     )
 
